@@ -13,6 +13,8 @@ package c04
 //	       other part of every handler on the path holds a decoration: an effect call
 //	       (so that what was done before and after must be kept, in order), nothing,
 //	       or - finally parts - a callee that throws and catches internally.
+//	hnat2: hpath with native setters: the script changes a Policy setting in every
+//	       handler part, the failing callees change settings / registries too.
 //	hgram: ALL scripts of a small grammar (depth <= 2, <= 2 items per sequence,
 //	       item and handler budgets) over the leaves {effect call, failing call,
 //	       THROW, subroutine}, without dead code (every leaf is executed in the model).
@@ -38,6 +40,8 @@ var hActives = []string{
 	"Cf[E]",            // no failure at all
 	"$sB[E!]",          // payment callback throws: crosses a native frame (uncatchable)
 	"Cf[E#]",           // callee aborts (uncatchable)
+	"WcC[E!]",          // the failing callee is reached through a method token (CALLT) of the conduit W
+	"WfC[E!]",          // ... from inside a try/finally of W
 }
 
 const (
@@ -75,6 +79,9 @@ func (s hstep) wrap(inner string, deco int) string {
 	if deco == 2 {
 		fin = hSwallow
 	}
+	if deco == 3 { // native setting changed by the script itself in every part
+		e, fin = "F", "F"
+	}
 	var t, c, f string
 	switch s.part {
 	case 't':
@@ -101,7 +108,7 @@ func (s hstep) wrap(inner string, deco int) string {
 }
 
 // hpathPrograms enumerates the hpath space: depths 1..D, decoration modes decos.
-func hpathPrograms(D int, decos []int, actives []string) []string {
+func hpathPrograms(D int, decos []int, actives []string, subs bool) []string {
 	steps := hsteps()
 	seen := map[string]bool{}
 	var out []string
@@ -110,7 +117,7 @@ func hpathPrograms(D int, decos []int, actives []string) []string {
 		for _, s := range steps {
 			w := s.wrap(inner, deco)
 			for _, tail := range []string{"", hEffect} {
-				if tail != "" && deco == 0 {
+				if tail != "" && (deco == 0 || deco == 3) {
 					continue
 				}
 				p := "H[" + w + tail + "]"
@@ -121,6 +128,11 @@ func hpathPrograms(D int, decos []int, actives []string) []string {
 			}
 			if d < D {
 				rec(d+1, w, deco)
+				if d == 1 && subs {
+					// the innermost handler lives in a subroutine frame of its own (CALL_L): the
+					// enclosing handlers are on the try stack of a DIFFERENT frame of the same script
+					rec(d+1, "("+w+")", deco)
+				}
 			}
 		}
 	}
@@ -289,12 +301,22 @@ func hspaces(thorough bool, s0 *State) []hspace {
 		info["also_in_real_blocks"] = block
 		out = append(out, hspace{Name: name, Progs: progs, Block: block, Info: info})
 	}
-	D := 3
-	add("hpath2", hpathPrograms(2, []int{1, 2}, hActives), true, map[string]any{"max_handler_depth": 2, "actives": hActives, "decorations": []string{"effects", "effects+swallowing-finally"}})
-	add("hpath3", hpathPrograms(D, []int{0, 1, 2}, hActives), false, map[string]any{"max_handler_depth": D, "actives": hActives, "decorations": []string{"none", "effects", "effects+swallowing-finally"}})
+	// quick: depth 2 completely (the effect-decorated half also in real blocks), depth 3 with the
+	// failing-call actives; thorough: depth 3 completely
+	deep := []string{"Cf[E!]", "(Cf[E!])", "Cd[N!]", "Bf[ECf[E!]]", "Cf[E]!", "WfC[E!]"}
+	decos3 := []int{1, 2}
+	if thorough {
+		deep, decos3 = hActives, []int{0, 1, 2}
+	}
+	add("hpath2b", hpathPrograms(2, []int{1}, hActives, true), true, map[string]any{"max_handler_depth": 2, "actives": hActives, "decorations": []string{"effects"}, "innermost_handler_also_in_a_subroutine_frame": true})
+	add("hpath2", hpathPrograms(2, []int{0, 2}, hActives, true), thorough, map[string]any{"max_handler_depth": 2, "actives": hActives, "decorations": []string{"none", "effects+swallowing-finally"}, "innermost_handler_also_in_a_subroutine_frame": true})
+	add("hpath3", hpathPrograms(3, decos3, deep, true), false, map[string]any{"max_handler_depth": 3, "actives": deep, "decorations_modes": decos3, "innermost_handler_also_in_a_subroutine_frame": true})
+	// native settings and registries changed from handler parts and by failing callees called from them
+	nat := []string{"Bf[F!]", "Bf[FCf[F!]]", "Bf[F]!", "Bf[K!]", "Bf[Y!]", "Bf[T{Cf[F!]}{}F]", "WtB[F!]"}
+	add("hnat2", hpathPrograms(2, []int{3}, nat, false), true, map[string]any{"max_handler_depth": 2, "actives": nat, "decorations": []string{"Policy.setFeePerByte called by the script in every part"}})
 	d, l, h, n := 2, 2, 2, 4
 	if thorough {
-		d, l, h, n = 3, 2, 3, 5
+		d, l, h, n = 2, 2, 2, 6
 	}
 	g, total := hgramPrograms(d, l, h, n, hgramLeaves, s0)
 	add("hgram", g, false, map[string]any{"max_handler_depth": d, "max_items_per_sequence": l, "max_handlers": h, "max_leaves": n, "leaves": hgramLeaves, "generated": total, "without_dead_code": len(g)})
